@@ -1310,3 +1310,57 @@ func C04_args_pair() {
 	sym.Assert(n.calls == 0, "value that cannot be coerced never reaches the resolver")
 	sym.Assert(len(errs) > 0, "a refused argument is reported as an error")
 }
+
+// C04_args_reuse: one parsed executable resolved twice with different
+// variable values (S): what the resolver is handed on the second call
+// denotes what the client wrote for THAT call - a variable nested in a list
+// or object literal is not frozen at its first value, and a literal refused
+// once is refused again.
+func C04_args_reuse() {
+	cases := []struct {
+		field, doc string
+		t          *ty
+		mk         func(v *wv) *wv // the written value given the variable's value
+	}{
+		{"fll", "query($v:Int){fll(x:[[1 $v]])}", lst(lst(tyInt)), func(v *wv) *wv {
+			return &wv{k: wList, list: []*wv{{k: wList, list: []*wv{{k: wInt, i: 1, text: "1"}, v}}}}
+		}},
+		{"flo", "query($v:Int){flo(x:[{r:$v}])}", lst(tyIn), func(v *wv) *wv {
+			return &wv{k: wList, list: []*wv{{k: wObj, keys: []string{"r"}, obj: map[string]*wv{"r": v}}}}
+		}},
+		{"fp", "query($v:Int){fp(x:{q:[{r:$v o:2}]})}", tyPt, func(v *wv) *wv {
+			return &wv{k: wObj, keys: []string{"q"}, obj: map[string]*wv{"q": {k: wList, list: []*wv{{k: wObj, keys: []string{"r", "o"},
+				obj: map[string]*wv{"r": v, "o": {k: wInt, i: 2, text: "2"}}}}}}}
+		}},
+		{"fl", "query($v:Int){fl(x:[1 \"two\" $v])}", lst(tyInt), func(v *wv) *wv {
+			return &wv{k: wList, list: []*wv{{k: wInt, i: 1, text: "1"}, {k: wStr, s: "two"}, v}}
+		}},
+		{"fl", "query($v:Int){fl(x:[1 \"two\"])}", lst(tyInt), func(v *wv) *wv {
+			return &wv{k: wList, list: []*wv{{k: wInt, i: 1, text: "1"}, {k: wStr, s: "two"}}}
+		}},
+	}
+	c := cases[sym.Choice("case", len(cases))]
+	n := &c04Node{}
+	root := c04Root(n)
+	exe, err := root.ParseExecutableString(c.doc)
+	sym.Assert(err == nil, "document accepted")
+	sym.Budget(4_000_000)
+	for call := 0; call < 2; call++ {
+		var v *wv
+		vars := map[string]interface{}{}
+		if sym.Choice("variable supplied", 2) == 1 {
+			x := sym.Int32("v")
+			v = &wv{k: wInt, i: int64(x)}
+			vars["v"] = int64(x)
+		} else {
+			v = &wv{k: wNull}
+		}
+		n.calls, n.got, n.has = 0, nil, false
+		data, rerr := root.ResolveExecutable(exe, "", vars)
+		res := map[string]interface{}{"data": data}
+		if rerr != nil {
+			res["errors"] = ggql.FormErrorsResult(rerr)
+		}
+		c04Judge(n, res, c.t, c.mk(v), true)
+	}
+}
